@@ -24,14 +24,14 @@ CfgOf(c) == [cd |-> c.cdt, wg |-> c.wgt, obeyset |-> {TRUE, FALSE},
                        [n |-> c.ws[i].n, ln |-> c.ws[i].ln, np |-> c.ws[i].np, G |-> c.ws[i].Gp, W |-> c.ws[i].Wt, sing |-> c.ws[i].sing,
                         resp |-> c.ws[i].resp, auto |-> c.ws[i].auto, prio |-> c.ws[i].prio, ssig |-> c.ws[i].ssig,
                         sch |-> c.ws[i].sch, hup |-> c.ws[i].hup, hooks |-> c.ws[i].hooks, retry |-> c.ws[i].retry,
-                        ver |-> c.ws[i].ver, od |-> c.ws[i].od]]]
+                        ver |-> c.ws[i].ver, od |-> c.ws[i].od, mage |-> c.ws[i].maget]]]
 
 InitState(cfg) ==
   [cfg |-> cfg, now |-> 0, k |-> <<>>,
    ws |-> [i \in 1..Len(cfg.ws) |->
             [st |-> "stopped", rel |-> FALSE, np |-> cfg.ws[i].np, pr |-> <<>>, sing |-> cfg.ws[i].sing, resp |-> cfg.ws[i].resp,
              od |-> ("od" \in DOMAIN cfg.ws[i] /\ cfg.ws[i].od), G |-> cfg.ws[i].G, W |-> cfg.ws[i].W, ssig |-> cfg.ws[i].ssig, sch |-> cfg.ws[i].sch,
-             hup |-> cfg.ws[i].hup]],
+             hup |-> cfg.ws[i].hup, mage |-> IF "mage" \in DOMAIN cfg.ws[i] THEN cfg.ws[i].mage ELSE 0]],
    wl |-> [i \in 1..Len(cfg.ws) |-> i], wn |-> <<>>,
    fr |-> [f \in FrameIds |-> NoFrame], cur |-> <<>>, rq |-> <<>>, tm |-> {}, pnext |-> -1, pdue |-> 0,
    slot |-> "", stopping |-> FALSE, restarting |-> FALSE, exited |-> FALSE, creq |-> QuitReq,
